@@ -757,6 +757,32 @@ def r_decode_contained(ctx):
             if any(nm in ('loads', 'decompress', 'decrypt', 'extract_timestamp') for nm in names) or isinstance(getattr(n, 'extra', None), ast.Assert):
                 dec_nodes.append(n)
     ctx.require(dec_nodes, 'decode calls not found')
+    # everything that works on the received payload or on what was decoded from it, up to the buffer advance, is a decode
+    # step too (e.g. unpacking the (key, message) pair): names derived from the payload slice
+    tainted = set()
+    changed = True
+    while changed:
+        changed = False
+        for n in cfg.nodes:
+            if n.kind != 'stmt' or not isinstance(n.ast, ast.Assign):
+                continue
+            v = n.ast.value
+            src = any(isinstance(x, ast.Subscript) and isinstance(x.slice, ast.Slice) and P.self_attr(x.value, parse.self_name) == rbuf and x.slice.lower is not None and x.slice.upper is not None
+                      for x in ast.walk(v)) or any(isinstance(x, ast.Name) and x.id in tainted for x in ast.walk(v))
+            if src:
+                for t in n.ast.targets:
+                    for x in (t.elts if isinstance(t, (ast.Tuple, ast.List)) else [t]):
+                        if isinstance(x, ast.Name) and x.id not in tainted:
+                            tainted.add(x.id)
+                            changed = True
+    for n in cfg.nodes:
+        if n.kind in ('stmt', 'cond') and n.ast is not None and n not in dec_nodes and cfg.may_raise(n.ast):
+            if isinstance(n.ast, ast.Return):
+                continue
+            uses = any(isinstance(x, ast.Name) and x.id in tainted and isinstance(x.ctx, ast.Load) for x in ast.walk(n.ast))
+            is_slice_only = isinstance(n.ast, ast.Assign) and isinstance(n.ast.value, ast.Subscript) and P.self_attr(n.ast.value.value, parse.self_name) == rbuf
+            if uses and not is_slice_only:
+                dec_nodes.append(n)
     for n in dec_nodes:
         inst = 'decode step `%s` contained' % unparse(n.ast)[:50]
         ctx.tick()
@@ -876,6 +902,22 @@ def r_consume_once(ctx):
             ctx.violation('%s:no-delivery-loop' % m.qualname, m.loc(calls[0]), 'buffered frames are not delivered in a loop (merged reads deliver only one message)', instance=inst)
             continue
         lp = loops[-1]
+        # the loop ends when the parser reports "no complete frame" (None) -- decided by identity: a decoded message may be falsy
+        mvars = set()
+        for c_ in calls:
+            cn_ = U.node_containing(mcfg, c_)
+            if cn_ is not None and isinstance(cn_.ast, ast.Assign) and isinstance(cn_.ast.targets[0], ast.Name):
+                mvars.add(cn_.ast.targets[0].id)
+        inst_e = 'end of buffered frames decided by `is None`, not by truthiness'
+        ctx.tick()
+        truthy = [n for n in mcfg.nodes if n.kind == 'cond' and (any(p is lp for p in n.parents) or n.extra is lp)
+                  and (isinstance(n.ast, ast.Name) and n.ast.id in mvars)]
+        if truthy:
+            ctx.violation('%s:end-of-buffer-by-truthiness' % m.qualname, m.loc(truthy[0].ast),
+                          'the delivery loop treats a falsy decoded message (0, \'\', [], {}, False) like "no complete frame": the frame is consumed but never delivered, and the '
+                          'frames buffered behind it wait for the next read', instance=inst_e)
+        elif mvars:
+            ctx.ok(inst_e, m.loc(lp), 'no truthiness test of %s in the loop' % sorted(mvars))
         cbs = [n for n in mcfg.nodes if n.kind == 'stmt' and any(p is lp for p in n.parents) and any(isinstance(c, ast.Call) and P.self_attr(c.func, m.self_name) == _msg_callback_attr(P, C) for c in ast.walk(n.ast))]
         checks = [n.id for n in mcfg.nodes if n.kind == 'cond' and any(p is lp for p in n.parents) and 'DISCONNECTED' in unparse(n.ast)]
         head = [n for n in mcfg.nodes if n.ast is lp and n.kind == 'loop'][0]
@@ -1093,3 +1135,48 @@ def r_disconnect_idempotent(ctx):
     else:
         ctx.violation('TcpConnection.disconnect:state-not-reset', d.loc(), 'disconnect() does not reset buffers and state', instance=inst)
     ctx.expect_min(3)
+
+
+@rule('R-read-ungated', 'reading from the socket never depends on how much is already buffered: a frame may be larger than any '
+                        'fixed buffer size, and the buffer only shrinks when a whole frame has arrived')
+def r_read_ungated(ctx):
+    P = ctx.P
+    C, send, parse, rbuf, wbuf = conn_parts(ctx)
+    sock, state = conn_attrs(ctx)
+    readers = [m for m in P.methods_of(C) if any(isinstance(c.func, ast.Attribute) and c.func.attr == 'recv' and P.self_attr(c.func.value, m.self_name) == sock for c in P.calls_in(m))]
+    ctx.require(readers, 'no socket read (recv) in TcpConnection')
+    # the read function and the methods of the class that call it (the drain loop)
+    sites = []
+    for m in P.methods_of(C):
+        for c in P.calls_in(m):
+            if (isinstance(c.func, ast.Attribute) and c.func.attr == 'recv' and P.self_attr(c.func.value, m.self_name) == sock) or any(t in readers for t in P.resolve_call(m, c).targets):
+                sites.append((m, c))
+    n_sites = 0
+    for m, c in sites:
+        cfg = U.explorer(ctx, m).cfg
+        cn = U.node_containing(cfg, c)
+        if cn is None:
+            continue
+        n_sites += 1
+        inst = '%s: `%s` is not guarded by a test on the buffered amount' % (m.qualname, unparse(c)[:50])
+        ctx.tick()
+        gate = None
+        for n in cfg.nodes:
+            if n.kind != 'cond' or n is cn:
+                continue
+            if not any(isinstance(x, ast.Call) and isinstance(x.func, ast.Name) and x.func.id == 'len' and x.args and P.self_attr(x.args[0], m.self_name) == rbuf for x in ast.walk(n.ast)):
+                continue
+            tt = [d for d, l in n.succ if l == ('cond', True)]
+            ff = [d for d, l in n.succ if l == ('cond', False)]
+            rt = cn.id in cfg.reachable_from(tt[0], avoid=[n.id], follow_exc=False) if tt else False
+            rf = cn.id in cfg.reachable_from(ff[0], avoid=[n.id], follow_exc=False) if ff else False
+            if rt != rf:
+                gate = n
+        if gate is None:
+            ctx.ok(inst, m.loc(c), 'no branch on len(self.%s) decides whether the read happens' % rbuf)
+        else:
+            ctx.violation('%s:read-gated-on-buffered-amount' % m.qualname, m.loc(gate.ast),
+                          'the socket is read only while `%s`: once that much of an incomplete frame is buffered nothing more is read, the frame never completes and the '
+                          'connection is stuck for good (any frame larger than the bound)' % unparse(gate.ast), instance=inst)
+    ctx.require(n_sites >= 2, 'socket read sites not found')
+    ctx.expect_min(2)
